@@ -16,6 +16,8 @@ import (
 	"github.com/cloudflare/circl/internal/zzverif/lib"
 	ref "github.com/cloudflare/circl/internal/zzverif/ref/hpke"
 	"github.com/cloudflare/circl/kem"
+	"github.com/cloudflare/circl/kem/xwing"
+	"golang.org/x/crypto/sha3"
 )
 
 const monDerive = "TestVerifDeriveKeyPair"
@@ -331,6 +333,42 @@ func TestVerifNonCanonicalPeerKeys(t *testing.T) {
 					wit["pkS_octets"] = lib.Hex(formS)
 					compareContext(monNonCanon, c, 1, op, wantR, wit)
 				}
+			}
+		}
+	}
+}
+
+// TestVerifDeriveKeyPairXWing: DeriveKeyPair of the X-Wing KEM is, for an ikm
+// of ANY length, GenerateKeyPairDerand(SHAKE256(ikm, 32)) (draft-connolly-cfrg-
+// xwing-kem section 5.5 / the library's comment): compared with kem/xwing's
+// derandomised key generation on the SHAKE256 output computed here, for ikm
+// lengths around the sizes a shortcut would key on (31, 32, 33, 64, ...).
+func TestVerifDeriveKeyPairXWing(t *testing.T) {
+	const mon = "TestVerifDeriveKeyPairXWing"
+	lib.Mandatory("derive-xwing:compared")
+	s := hpke.KEM_XWING.Scheme()
+	for _, l := range []int{0, 1, 16, 31, 32, 33, 48, 63, 64, 65, 96, 135, 136, 137, 300} {
+		for i := 0; i < lib.Scale(2, 20); i++ {
+			ikm := lib.NewRng("c07/derive-xwing", l*100+i).Bytes(l)
+			h := sha3.NewShake256()
+			_, _ = h.Write(ikm)
+			seed := make([]byte, xwing.SeedSize)
+			_, _ = h.Read(seed)
+			wantPk, wantSk := xwing.Scheme().DeriveKeyPair(seed)
+			wp, _ := wantPk.MarshalBinary()
+			ws, _ := wantSk.MarshalBinary()
+			var pk kem.PublicKey
+			var sk kem.PrivateKey
+			lib.Case([]byte("derive-xwing"), ikm)
+			if pn := lib.Try("hpke.KEM_XWING.DeriveKeyPair", ikm, func() { pk, sk = s.DeriveKeyPair(lib.Clone(ikm)) }); pn != nil {
+				lib.Violation("C07:panic:derive-key-pair:XWing", mon, lib.D("ikm", ikm, "panic", pn.Value))
+				continue
+			}
+			gp, _ := pk.MarshalBinary()
+			gs, _ := sk.MarshalBinary()
+			lib.Count("derive-xwing:compared")
+			if !lib.Eq(gp, wp) || !lib.Eq(gs, ws) {
+				lib.Violation("C07:derive-key-pair:XWing", mon, lib.D("ikm", ikm, "ikm_len", l, "got_sk", gs, "want_sk", ws, "got_pk_prefix", gp[:32], "want_pk_prefix", wp[:32]))
 			}
 		}
 	}
